@@ -56,34 +56,36 @@ where
 
         if self.q_vals.is_empty() {
             self.old_ref = val;
-            self.last_val = val;
         }
         let window_len = T::from(self.window_len).expect("can convert");
         if self.q_vals.len() >= self.window_len {
-            // remove old
-            let old_val = *self.q_vals.front().unwrap();
-            let change = old_val - self.old_ref;
-            self.old_ref = old_val;
-            self.q_vals.pop_front();
-            if change > T::zero() {
-                self.avg_gain = self.avg_gain - change / window_len;
-            } else {
-                self.avg_loss = self.avg_loss - change.abs() / window_len;
-            }
+            // the value leaving the window becomes the reference of the oldest change inside it
+            self.old_ref = self.q_vals.pop_front().unwrap();
         }
         self.q_vals.push_back(val);
-
-        let change = val - self.last_val;
         self.last_val = val;
-        if change > T::zero() {
-            self.avg_gain = self.avg_gain + change / window_len;
-        } else {
-            self.avg_loss = self.avg_loss + change.abs() / window_len;
-        }
 
         if self.q_vals.len() < self.window_len {
             return;
         }
+
+        // Average gain and loss over the changes inside the window. They are summed afresh on every
+        // update: maintaining them by adding and subtracting lets rounding residue of changes that
+        // have left the window accumulate (a flat window then reports garbage, even -inf).
+        let mut avg_gain = T::zero();
+        let mut avg_loss = T::zero();
+        let mut prev = self.old_ref;
+        for v in self.q_vals.iter() {
+            let change = *v - prev;
+            if change > T::zero() {
+                avg_gain = avg_gain + change / window_len;
+            } else {
+                avg_loss = avg_loss + change.abs() / window_len;
+            }
+            prev = *v;
+        }
+        self.avg_gain = avg_gain;
+        self.avg_loss = avg_loss;
 
         let hundred = T::from(100.0).expect("can convert");
         if self.avg_loss == T::zero() {
